@@ -221,7 +221,10 @@ func init() {
 					}
 				}
 				defer inflight.Add(-1)
-				if body > 0 {
+				if st, ok := p["timestage"]; ok { // the body times a stage of that name (T.Time records into the process-wide metrics)
+					initGlobalMetrics()
+					t.Time(st, func() { time.Sleep(body) })
+				} else if body > 0 {
 					time.Sleep(body)
 				}
 				id, _ := strconv.Atoi(t.Iteration)
@@ -258,6 +261,9 @@ func init() {
 						return
 					case "fatalnil":
 						t.Fatal(nil)
+					case "panicstringer": // a typed nil pointer whose String method dereferences its receiver
+						var e *nilReceiverStringer
+						panic(e)
 					case "timefail":
 						initGlobalMetrics()
 						t.Time("stage", func() { t.FailNow() })
@@ -295,7 +301,14 @@ func init() {
 				return func(*f1testing.T) { laterRan.Add(1) }
 			})
 		}
-		app := f1.New().WithLogger(slog.New(sh)).Add("s", topFn)
+		var app *f1.F1
+		if p["logfmt"] == "json" { // f1's own JSON logger (banner and counts then come from the returned error and the truth counters)
+			os.Setenv("F1_LOG_FORMAT", "json")
+			app = f1.New().Add("s", topFn)
+			os.Unsetenv("F1_LOG_FORMAT")
+		} else {
+			app = f1.New().WithLogger(slog.New(sh)).Add("s", topFn)
+		}
 		if p["static"] == "1" {
 			app = app.WithStaticMetrics(staticLabels)
 		}
